@@ -16,7 +16,7 @@ from pyvc.ops import F, T, is_none, strip_opt, truth
 from pyvc.state import St
 from pyvc.values import ClassRef, Opt, Ref, Sym, Unsupported, dt_ts, fresh, is_sym, simp
 
-from .common import codec_hooks
+from .common import codec_hooks, snapshot, unchanged
 
 
 class NF:
@@ -153,10 +153,14 @@ def round_trip(chk, eng, key, route, label):
             paths += 1
             continue
         args = [d] if "staticmethod" in from_m.decorators else [ClassRef(cls), d]
+        wire_before = snapshot(s1, d)
         for k2, back, s2 in eng.run(from_m, args, st=s1):
             paths += 1
             desc = describe_factory(o, s2)
             rp = replay_factory(cls, route)
+            chk.prove(f"C20.{label}.rt.wire_unchanged", s2.pc, unchanged(s2, wire_before, d),
+                      desc=f"frame: {from_name} does not modify the wire dictionary it decodes (nested objects included), so the same payload can be decoded again", describe=desc,
+                      replay=replay_factory(cls, route, "__wire_unchanged__"))
             if k2 == "raise":
                 chk.prove(f"C20.{label}.rt.total", s2.pc, F, desc=f"{from_name}({to_name}(x)) does not raise", describe=desc, replay=rp)
                 continue
